@@ -184,7 +184,7 @@ theorem C18_iter : ∀ (d : Dir) (cs : List (String × String × String)), itera
           simp only [Option.map, Option.some.injEq] at h
           subst h
           simp [List.filter, hc, ih rest hr]
-      | other => cases h
+      | other t => cases h
       | badJson => cases h
     · rw [if_neg hc] at h
       simp only [List.filter, hc]
